@@ -18,7 +18,7 @@ from hashlib import sha256
 from types import FunctionType
 from typing import Literal, Mapping
 
-from pydantic import BaseModel, Field, JsonValue, TypeAdapter, ValidationError
+from pydantic import BaseModel, Field, JsonValue, TypeAdapter, ValidationError, field_serializer
 from typing_extensions import Any, Optional, Self
 
 from .components import Component
@@ -81,6 +81,11 @@ class PipelineInput(BaseModel):
     "The name for this input."
     types: Optional[set[str]]
     "The list of types for this input."
+
+    @field_serializer("types", when_used="json")
+    def _serialize_types(self, types: Optional[set[str]]) -> Optional[list[str]]:
+        # sets iterate in hash order, which varies between interpreter runs
+        return None if types is None else sorted(types)
 
     @classmethod
     def from_node(cls, node: InputNode[Any]) -> Self:
